@@ -208,7 +208,7 @@ func init() {
 			c.guard("RW.TMPL.FOR", r.ruleTmplFor)
 			c.keep(func(o Obligation) bool {
 				if o.Rule == "OPT.ORDER" {
-					return o.Construct == "file using seq" || o.Construct == "imports cleaned after the last optimisation"
+					return o.Construct == "file using seq" || o.Construct == "second file using seq" || o.Construct == "imports cleaned after the last optimisation"
 				}
 				return o.Rule != "SEQ.LAZY"
 			})
@@ -229,6 +229,11 @@ func init() {
 			c.guard("RW.MUTGUARD", r.ruleMutGuard)
 			c.guard("OPT.ETA", r.ruleOptEta)
 			c.guard("OPT.RULES", r.ruleOptRules)
+			// a processed file that is not written takes its plain declarations (init functions, registrations) with it;
+			// per-file state carried over from an earlier file replaces the doc comments (//go:embed, //go:noinline) of plain declarations
+			c.guard("OPT.ORDER", r.ruleOptOrder)
+			c.guard("RW.ALLFILES", func() { r.ruleAllFiles(false) })
+			c.guard("RW.FILEPASSES", r.ruleFilePasses)
 			c.guard("RW.TMPL.HOIST", r.rulePass0)
 			c.guard("RW.BRANCHCTX", r.ruleBranchCtx)
 			c.guard("RW.TMPL.ITERTYPE", r.ruleIterType)
@@ -243,6 +248,12 @@ func init() {
 					return strings.Contains(o.Construct, "FuncLit")
 				case "RW.TMPL.ITERTYPE":
 					return strings.Contains(o.Construct, "= false")
+				case "OPT.ORDER":
+					return o.Construct == "file using seq" || o.Construct == "second file using seq"
+				case "RW.ALLFILES":
+					return o.Construct == "file using the API"
+				case "RW.FILEPASSES":
+					return strings.HasPrefix(o.Construct, "per-file state")
 				}
 				return true
 			})
@@ -397,8 +408,8 @@ func init() {
 				switch o.Rule {
 				case "DET.TMP":
 					return strings.HasPrefix(o.Construct, "GoGen")
-				case "OPT.ORDER":
-					return o.Construct == "file not using seq"
+				case "OPT.ORDER": // exactly one derived file per source file that uses the API
+					return o.Construct == "file not using seq" || o.Construct == "file using seq" || o.Construct == "second file using seq"
 				}
 				return true
 			})
